@@ -80,15 +80,36 @@ def run(chk):
     chk.assume("the operation list is the group (C02) and decode/apply are the affine map (C11)")
 
 
+def _identity_search(u: P, ops_keys):
+    """u = next((i for i, s in enumerate(OPS) if s.integer_code == IDENTITY), 0): the index of the identity found by a generator
+    instead of a loop with break."""
+    a = u.as_atom()
+    if not (a and a[0] == "call" and call_name(a) == "next" and a[2]):
+        return False
+    c = a[2][0].as_atom()
+    if not (c and c[0] == "comp" and c[1] == "GeneratorExp" and len(c) == 4 and len(c[3]) == 1):
+        return False
+    kind, it, conds = c[3][0]
+    ia = it.as_atom()
+    if kind != "enumerate" or not (ia and ia[0] == "call" and ia[2] and ia[2][0].key() in ops_keys) or len(ia[2]) > 1 or (len(ia) > 3 and ia[3]):
+        return False
+    idx = c[2]
+    if not (idx.as_atom() and idx.as_atom()[0] == "lv"):
+        return False
+    op = P.atom(("sub", ia[2][0], (idx,)))
+    return len(conds) == 1 and conds[0].key() in (f"(eq {op}.integer_code {M.IDENTITY})", f"(eq {M.IDENTITY} {op}.integer_code)", f"{op}.is_identity()")
+
+
 def _identity_first_partition(ev, ops_key="self.symmetry_operations"):
     """other = ops[:u] + ops[u+1:] with u located by the identity test -> (ok, detail)."""
+    ops_keys = {ops_key} | {str(P.atom(k)) for k, v in ev.defs.items() if k[0] == "local" and v.key() == ops_key}
     tests = [e for e in ev.events if e.kind == "test" and e.loops]
     oku = any((f"(eq {M.IDENTITY} " in e.value.key() and ".integer_code" in e.value.key()) or ".is_identity()" in e.value.key() for e in tests)
     sl = []
     for e in ev.events:
         if e.value is None:
             continue
-        for a in find_atoms(e.value, lambda a: a[0] == "sub" and a[1].key() == ops_key):
+        for a in find_atoms(e.value, lambda a: a[0] == "sub" and a[1].key() in ops_keys):
             s = a[2][0].as_atom()
             if s and s[0] == "slice":
                 sl.append((s[1], s[2]))
@@ -99,8 +120,31 @@ def _identity_first_partition(ev, ops_key="self.symmetry_operations"):
         tails = [x for x in sl if x[1].key() == "None"]
         if len(heads) == 1 and len(tails) == 1:
             u = heads[0][1]
-            okpart = tails[0][0] == u + 1 and u.as_atom() is not None and u.as_atom()[0] == "after" and u.as_atom()[1] == "unity"
-    return oku, okpart, [(str(a), str(b)) for a, b in sl]
+            searched = _identity_search(u, ops_keys)
+            oku = oku or searched
+            okpart = tails[0][0] == u + 1 and (searched or (u.as_atom() is not None and u.as_atom()[0] == "after" and u.as_atom()[1] == "unity"))
+    return oku, okpart, [(str(a)[:80], str(b)[:80]) for a, b in sl]
+
+
+def _repeat_layout(ev, n):
+    """generator = np.repeat(np.array([IDENTITY] + [s.integer_code for s in OTHER]), n): block 0 carries the identity's code and block i
+    the code of OTHER[i-1], every block n entries long  ->  (name, first, normalised element key, list key, count)."""
+    for e in ev.events:
+        if e.kind != "assign" or e.value is None:
+            continue
+        a = e.value.as_atom()
+        if not (a and a[0] == "call" and call_name(a) == "numpy.repeat" and len(a[2]) == 2):
+            continue
+        arr = a[2][0].as_atom()
+        if arr and arr[0] == "call" and call_name(arr) in ("numpy.array", "numpy.asarray") and arr[2]:
+            arr = arr[2][0].as_atom()
+        if not (arr and arr[0] == "concat" and len(arr[1]) == 2):
+            continue
+        head, tail = seq_items(arr[1][0]), _comp_of(arr[1][1])
+        if head is None or len(head) != 1 or tail is None:
+            continue
+        return e.name, head[0], tail[0], tail[1], a[2][1]
+    return None
 
 
 def r01_1(chk, sg, cr):
@@ -128,7 +172,8 @@ def r01_1(chk, sg, cr):
     form_b = not bufs and any(k[1] == "symops" for k in ev.defs)
     if form_b:
         return r01_1_ordered(chk, sg, cr, ev, q, coords, n)
-    chk.need(len(bufs) == 2, f"{q}: expected two output buffers, found {list(bufs)}")
+    rep = _repeat_layout(ev, n) if len(bufs) == 1 else None
+    chk.need(len(bufs) == 2 or rep is not None, f"{q}: expected two output buffers, found {list(bufs)}")
     for name, (obj, size) in bufs.items():
         chk.ob("R01.1", SG, q, f"buffer '{name}' holds nsites * len(group) entries", size == n * nops, fingerprint=f"size:{name}",
                expected=str(n * nops), found=str(size))
@@ -146,6 +191,8 @@ def r01_1(chk, sg, cr):
         name = t[1].as_atom()[1]
         ident_ok[name] = bool(s and s[0] == "slice" and s[1] == P.const(0) and s[2] == n) and \
             (e.value.key() == coords.key() or e.value == P.const(M.IDENTITY))
+    if rep is not None:
+        ident_ok[rep[0]] = rep[1] == P.const(M.IDENTITY)
     chk.ob("R01.1", SG, q, "block 0 holds the input coordinates with the identity's code as generator",
            len(ident_ok) == 2 and all(ident_ok.values()), found=str(ident_ok))
     oku, okpart, sl = _identity_first_partition(ev)
@@ -153,12 +200,16 @@ def r01_1(chk, sg, cr):
     other = [v for k, v in ev.defs.items() if k[1] == "other_symops"]
     chk.need(other, f"{q}: list of the remaining operations not found")
     chk.ob("R01.1", SG, q, "the remaining operations are ops[:u] and ops[u+1:] (each non-identity operation exactly once)", okpart, found=sl)
+    if rep is not None:
+        # one block per entry of [identity] + other, each repeated n times: 1 + (len(ops) - 1) blocks when the partition holds
+        chk.ob("R01.1", SG, q, f"buffer '{rep[0]}' holds nsites * len(group) entries", okpart and rep[4] == n, fingerprint=f"size:{rep[0]}",
+               expected=f"np.repeat(<1 + len(other) codes>, {n})", found=f"repeat count {rep[4]}")
     if not loop and len(batched) == 2:
         r01_1_batched(chk, q, batched, coords, n)
         ret = seq_items(ev.returns[-1].value)
         okret = bool(ret and len(ret) == 2 and ret[0].as_atom()[1] == "generator_symop" and ret[1].as_atom()[1] == "transformed")
         return _consumer_unpack(chk, sg, cr, q, okret, ev)
-    chk.need(len(loop) == 2, f"{q}: expected two block stores in the loop")
+    chk.need(len(loop) == (1 if rep is not None else 2), f"{q}: expected two block stores in the loop")
     li = loop[0].loops[-1]
     chk.ob("R01.1", SG, q, "blocks are numbered from 1 (enumerate(..., start=1))", li.kind == "enumerate" and li.lo == P.const(1),
            found=f"{li.kind} start={li.lo}")
@@ -171,22 +222,33 @@ def r01_1(chk, sg, cr):
         name = t[1].as_atom()[1]
         slices[name] = (s[1], s[2]) if s and s[0] == "slice" else None
         vals[name] = e.value
-    same = len({(str(a), str(b)) for a, b in slices.values()}) == 1
+    same = len({(str(a), str(b)) for a, b in slices.values()}) == 1 and (rep is None or rep[4] == n)
     lo, hi = list(slices.values())[0]
     chk.ob("R01.1", SG, q, "coordinate block and generator block of operation i use the same slice [i*n : (i+1)*n]",
            same and lo == i * n and hi == (i + 1) * n, expected=f"[{i * n}, {(i + 1) * n})",
            found={k: (str(a), str(b)) for k, (a, b) in slices.items()})
-    op = P.atom(("sub", P.atom([k for k in ev.defs if k[1] == "other_symops"][-1]), (i - 1,)))
+    olist = P.atom([k for k in ev.defs if k[1] == "other_symops"][-1])
+    op = P.atom(("sub", olist, (i - 1,)))
     vc = [v for v in vals.values() if "integer_code" not in v.key()]
     vg = [v for v in vals.values() if "integer_code" in v.key()]
-    okpair = len(vc) == 1 and len(vg) == 1 and vg[0] == P.atom(("attr", op, "integer_code")) and \
+    if rep is not None:
+        # the codes are listed in the order of the same list the coordinate loop enumerates
+        okg = li.iter is not None and li.iter.key() == olist.key() and rep[3] == olist.key() and rep[2] == f"{olist}[_it].integer_code"
+    else:
+        okg = len(vg) == 1 and vg[0] == P.atom(("attr", op, "integer_code"))
+    okpair = len(vc) == 1 and okg and \
         vc[0].as_atom() and vc[0].as_atom()[0] == "call" and (vc[0].as_atom()[1].key() == op.key() or
                                                               vc[0].as_atom()[1].key() == f"{op}.apply") \
         and vc[0].as_atom()[2][0].key() == coords.key()
     chk.ob("R01.1", SG, q, "block i holds s(coordinates) and s.integer_code for the same operation s = other[i-1]", bool(okpair),
            found={k: str(v) for k, v in vals.items()})
     ret = seq_items(ev.returns[-1].value)
-    okret = bool(ret and len(ret) == 2 and ret[0].as_atom()[1] == "generator_symop" and ret[1].as_atom()[1] == "transformed")
+    if rep is not None:
+        rv = [e.value for e in ev.events if e.kind == "assign" and e.name == rep[0]][-1]
+        okret = bool(ret and len(ret) == 2 and ret[0].key() == rv.key() and ret[1].as_atom() and ret[1].as_atom()[0] == "obj"
+                     and ret[1].as_atom()[1] in bufs)
+    else:
+        okret = bool(ret and len(ret) == 2 and ret[0].as_atom()[1] == "generator_symop" and ret[1].as_atom()[1] == "transformed")
     _consumer_unpack(chk, sg, cr, q, okret, ev)
 
 
